@@ -72,13 +72,16 @@ impl GenericSingleObjectWriter {
         if !Self::HEADER_LENGTH_RANGE.contains(&original_length) {
             Err(Details::IllegalSingleObjectWriterState.into())
         } else {
-            write_value_ref_owned_resolved(&self.resolved, v, &mut self.buffer)?;
-            writer
-                .write_all(&self.buffer)
-                .map_err(Details::WriteBytes)?;
+            let result = write_value_ref_owned_resolved(&self.resolved, v, &mut self.buffer)
+                .and_then(|_| {
+                    writer
+                        .write_all(&self.buffer)
+                        .map_err(|e| Details::WriteBytes(e).into())
+                });
             let len = self.buffer.len();
+            // Restore the buffer to just the header, also when encoding or writing failed
             self.buffer.truncate(original_length);
-            Ok(len)
+            result.map(|()| len)
         }
     }
 
@@ -173,12 +176,13 @@ where
     /// Each call writes a complete single-object encoded message (header + data),
     /// making each message independently decodable.
     pub fn write_value<W: Write>(&self, data: T, writer: &mut W) -> AvroResult<usize> {
-        writer
-            .write_all(&self.header)
-            .map_err(Details::WriteBytes)?;
         let value: Value = data.into();
-        let bytes = write_value_ref_owned_resolved(&self.resolved, &value, writer)?;
-        Ok(bytes + self.header.len())
+        // Validate and encode before anything reaches the writer, so that a rejected value
+        // does not leave a dangling header in the output
+        let mut message = self.header.clone();
+        write_value_ref_owned_resolved(&self.resolved, &value, &mut message)?;
+        writer.write_all(&message).map_err(Details::WriteBytes)?;
+        Ok(message.len())
     }
 }
 
